@@ -600,6 +600,10 @@ class DestHandler:
         self._handle_eof_without_previous_metadata(eof_pdu)
 
     def _handle_eof_without_previous_metadata(self, eof_pdu: EofPdu) -> None:
+        if eof_pdu.condition_code != ConditionCode.NO_ERROR:
+            # This is an EOF (Cancel): The Cancel Response Procedures do not depend on the metadata.
+            self._handle_eof_pdu(eof_pdu)
+            return
         if self._params.fp.progress > eof_pdu.file_size:
             # CFDP 4.6.1.2.9: Declare file size error if progress exceeds file size
             if self._declare_fault(ConditionCode.FILE_SIZE_ERROR) != FaultHandlerCode.IGNORE_ERROR:
